@@ -657,4 +657,291 @@ theorem keptPieces_marketing (cfg : Cfg) {seg : Bytes} (h38 : 38 ∉ seg)
 theorem keptPieces_nil (cfg : Cfg) : keptPieces cfg [] = [] := by
   simp [keptPieces, pieces, splitAll]
 
+/-! ### ASCII case -/
+
+theorem lowerAscii_append (a b : Bytes) : lowerAscii (a ++ b) = lowerAscii a ++ lowerAscii b := by
+  simp [lowerAscii]
+
+theorem lowerAscii_cons (x : Nat) (a : Bytes) : lowerAscii (x :: a) = lowerByte x :: lowerAscii a := rfl
+
+theorem lowerAscii_isEmpty {a b : Bytes} (h : lowerAscii a = lowerAscii b) : a.isEmpty = b.isEmpty := by
+  cases a <;> cases b <;> simp [lowerAscii] at h ⊢
+
+theorem letters_not_encoded_url : ∀ b, b < 123 → 65 ≤ b → (b ≤ 90 ∨ 97 ≤ b) → shouldEncode urlSet b = false := by
+  decide
+
+theorem letters_not_encoded_query : ∀ b, b < 123 → 65 ≤ b → (b ≤ 90 ∨ 97 ≤ b) → shouldEncode querySet b = false := by
+  decide
+
+theorem lowerByte_eq_cases {b b' : Nat} (h : lowerByte b = lowerByte b') :
+    b = b' ∨ (65 ≤ b ∧ b ≤ 90 ∧ b' = b + 32) ∨ (65 ≤ b' ∧ b' ≤ 90 ∧ b = b' + 32) := by
+  unfold lowerByte at h
+  split at h <;> split at h <;> omega
+
+theorem lower_encOne {S : List Nat}
+    (hS : ∀ b, b < 123 → 65 ≤ b → (b ≤ 90 ∨ 97 ≤ b) → shouldEncode S b = false) {b b' : Nat}
+    (h : lowerByte b = lowerByte b') : lowerAscii (encOne S b) = lowerAscii (encOne S b') := by
+  rcases lowerByte_eq_cases h with e | ⟨h1, h2, h3⟩ | ⟨h1, h2, h3⟩
+  · rw [e]
+  · rw [encOne_of_false (hS b (by omega) h1 (Or.inl h2)),
+      encOne_of_false (hS b' (by omega) (by omega) (Or.inr (by omega)))]
+    simp [lowerAscii, h]
+  · rw [encOne_of_false (hS b' (by omega) h1 (Or.inl h2)),
+      encOne_of_false (hS b (by omega) (by omega) (Or.inr (by omega)))]
+    simp [lowerAscii, h]
+
+/-- encoding respects equality up to ASCII case (letters are in no set). -/
+theorem lower_pctEncode {S : List Nat}
+    (hS : ∀ b, b < 123 → 65 ≤ b → (b ≤ 90 ∨ 97 ≤ b) → shouldEncode S b = false) {x x' : Bytes}
+    (h : lowerAscii x = lowerAscii x') : lowerAscii (pctEncode S x) = lowerAscii (pctEncode S x') := by
+  induction x generalizing x' with
+  | nil =>
+    cases x' with
+    | nil => rfl
+    | cons _ _ => simp [lowerAscii] at h
+  | cons b r ih =>
+    cases x' with
+    | nil => simp [lowerAscii] at h
+    | cons b' r' =>
+      simp only [lowerAscii_cons, List.cons.injEq] at h
+      rw [pctEncode_cons, pctEncode_cons, lowerAscii_append, lowerAscii_append, lower_encOne hS h.1, ih h.2]
+
+theorem lower_reqParam {a b : Bytes × Bytes} (hk : lowerAscii a.1 = lowerAscii b.1)
+    (hv : lowerAscii a.2 = lowerAscii b.2) : lowerAscii (reqParam a) = lowerAscii (reqParam b) := by
+  unfold reqParam
+  rw [lowerAscii_append, lowerAscii_append, lower_pctEncode letters_not_encoded_query hk,
+    lowerAscii_isEmpty hv]
+  congr 1
+  cases b.2.isEmpty with
+  | true => rfl
+  | false =>
+    simp only [Bool.not_false, if_true, lowerAscii_cons]
+    rw [lower_pctEncode letters_not_encoded_query hv]
+
+theorem lower_pushParam {acc acc' p p' : Bytes} (ha : lowerAscii acc = lowerAscii acc')
+    (hp : lowerAscii p = lowerAscii p') : lowerAscii (pushParam acc p) = lowerAscii (pushParam acc' p') := by
+  unfold pushParam
+  rw [lowerAscii_append, lowerAscii_append, hp, lowerAscii_isEmpty ha]
+  congr 1
+  cases acc'.isEmpty with
+  | true => simpa using ha
+  | false => simp [lowerAscii_append, ha]
+
+/-- two parameter lists that correspond entry by entry up to ASCII case, with the same entries
+classified as marketing parameters, render to the same kept string up to case. -/
+theorem lower_keptOf (cfg : Cfg) (l : List ((Bytes × Bytes) × (Bytes × Bytes)))
+    (h : ∀ pr ∈ l, lowerAscii pr.1.1 = lowerAscii pr.2.1 ∧ lowerAscii pr.1.2 = lowerAscii pr.2.2 ∧
+      isMarketing cfg pr.1.1 = isMarketing cfg pr.2.1) :
+    lowerAscii (keptOf cfg (l.map Prod.fst)) = lowerAscii (keptOf cfg (l.map Prod.snd)) := by
+  unfold keptOf joinParams
+  have : ∀ (acc acc' : Bytes), lowerAscii acc = lowerAscii acc' →
+      lowerAscii ((((l.map Prod.fst).filter (notMarketing cfg)).map reqParam).foldl pushParam acc) =
+      lowerAscii ((((l.map Prod.snd).filter (notMarketing cfg)).map reqParam).foldl pushParam acc') := by
+    induction l with
+    | nil => intro acc acc' ha; exact ha
+    | cons pr rest ih =>
+      intro acc acc' ha
+      obtain ⟨h1, h2, h3⟩ := h pr (by simp)
+      have ih := ih (fun x hx => h x (List.mem_cons_of_mem _ hx))
+      cases hm : isMarketing cfg pr.2.1 with
+      | true =>
+        have hm1 : isMarketing cfg pr.1.1 = true := h3.trans hm
+        simp only [List.map_cons, List.filter_cons, notMarketing, hm, hm1, Bool.not_true,
+          Bool.false_eq_true, if_false]
+        exact ih acc acc' ha
+      | false =>
+        have hm1 : isMarketing cfg pr.1.1 = false := h3.trans hm
+        simp only [List.map_cons, List.filter_cons, notMarketing, hm, hm1, Bool.not_false, if_true,
+          List.foldl_cons]
+        exact ih _ _ (lower_pushParam ha (lower_reqParam h1 h2))
+  exact this [] [] rfl
+
+theorem lower_npq (cfg : Cfg) {path path' : Bytes} (hp : lowerAscii path = lowerAscii path')
+    (l : List ((Bytes × Bytes) × (Bytes × Bytes)))
+    (h : ∀ pr ∈ l, lowerAscii pr.1.1 = lowerAscii pr.2.1 ∧ lowerAscii pr.1.2 = lowerAscii pr.2.2 ∧
+      isMarketing cfg pr.1.1 = isMarketing cfg pr.2.1) :
+    lowerAscii (npq cfg path (l.map Prod.fst)) = lowerAscii (npq cfg path' (l.map Prod.snd)) := by
+  have hk := lower_keptOf cfg l h
+  unfold npq
+  rw [lowerAscii_isEmpty hk]
+  cases (keptOf cfg (l.map Prod.snd)).isEmpty with
+  | true => simpa using hp
+  | false => simp [lowerAscii_append, lowerAscii_cons, hp, hk]
+
+theorem lower_pqPath {p p' : Bytes} (h : lowerAscii p = lowerAscii p') :
+    lowerAscii (pqPath p) = lowerAscii (pqPath p') := by
+  unfold pqPath
+  rw [lowerAscii_isEmpty h]
+  cases p'.isEmpty <;> simp [h]
+
+/-- the key of a URL without `?` is the (lower-cased) sanitised URL, accepted or not. -/
+theorem reqKey_no_query (cfg : Cfg) (u : Bytes) (hb : IsBytes u) (h63 : 63 ∉ u) :
+    reqKey cfg u = lowerIf cfg.ignoreCase (sanitize u) := by
+  cases hacc : (pqParse (sanitize u)).isSome with
+  | false =>
+    have : pqParse (sanitize u) = none := by
+      cases h : pqParse (sanitize u) with
+      | none => rfl
+      | some _ => rw [h] at hacc; cases hacc
+    simp [reqKey, fromConfig, this, PQS.key]
+  | true =>
+    have hne : sanitize u ≠ [] := by
+      intro e; rw [e] at hacc; revert hacc; decide
+    unfold reqKey
+    rw [fromConfig_accepted cfg u hb hacc]
+    have hm : paramsOf u = [] := by
+      rw [paramsOf_eq, splitFirst_of_not_mem h63]
+    simp only [PQS.key, hm, npq, keptOf_nil, splitFirst_of_not_mem h63]
+    rw [pqPath_of_ne hne]; rfl
+
+/-! ### separation: the rendered query determines the parameter list -/
+
+/-- a decoded parameter without encoded delimiters: no `%`, `&` in name or value, no `=` in the
+name, valid UTF-8 (a fixed point of the lossy conversion), not the empty parameter. -/
+structure Plain (kv : Bytes × Bytes) : Prop where
+  bk : IsBytes kv.1
+  bv : IsBytes kv.2
+  k37 : 37 ∉ kv.1
+  k38 : 38 ∉ kv.1
+  k61 : 61 ∉ kv.1
+  v37 : 37 ∉ kv.2
+  v38 : 38 ∉ kv.2
+  uk : utf8Lossy kv.1 = kv.1
+  uv : utf8Lossy kv.2 = kv.2
+  ne : kv ≠ ([], [])
+
+theorem shouldEncode_querySet_43 : shouldEncode querySet 43 = true := by decide
+
+theorem map_plusToSpace_of_not_mem {x : Bytes} (h : 43 ∉ x) : x.map plusToSpace = x := by
+  induction x with
+  | nil => rfl
+  | cons b r ih =>
+    have hb : b ≠ 43 := fun e => h (by simp [e])
+    simp [plusToSpace, hb, ih (fun e => h (List.mem_cons_of_mem _ e))]
+
+/-- **form-decoding the request-side rendering gives the string back** (strings without `%`, valid
+UTF-8): `+` is escaped by the query set, every escape decodes to its byte. -/
+theorem decodeForm_pctEncode_query {x : Bytes} (hx : IsBytes x) (h37 : 37 ∉ x) (hu : utf8Lossy x = x) :
+    decodeForm (pctEncode querySet x) = x := by
+  unfold decodeForm
+  have h43 : 43 ∉ pctEncode querySet x := by
+    intro h
+    have := (mem_pctEncode (S := querySet) (s := x) (c := 43) (by omega)).mp h
+    rw [shouldEncode_querySet_43] at this
+    exact absurd this.2 (by simp)
+  rw [map_plusToSpace_of_not_mem h43, pctDecode_pctEncode_id safe_querySet x hx h37, hu]
+
+theorem not_mem_pctEncode_of_not_mem {S : List Nat} {c : Nat} (hc : IsDelim c) {x : Bytes} (h : c ∉ x) :
+    c ∉ pctEncode S x := by
+  intro hm
+  exact h ((mem_pctEncode (S := S) (s := x) (c := c) hc).mp hm).1
+
+theorem decodeForm_nil : decodeForm [] = [] := by decide
+
+theorem parsePair_reqParam {kv : Bytes × Bytes} (h : Plain kv) : parsePair (reqParam kv) = kv := by
+  obtain ⟨k, v⟩ := kv
+  have h61 : 61 ∉ pctEncode querySet k := not_mem_pctEncode_of_not_mem isDelim_61 h.k61
+  unfold parsePair reqParam
+  rw [splitFirst_append_of_not_mem 61 _ _ h61]
+  cases v with
+  | nil =>
+    simp only [List.isEmpty_nil, Bool.not_true, Bool.false_eq_true, if_false, splitFirst, List.append_nil,
+      Option.getD_none, decodeForm_nil]
+    rw [decodeForm_pctEncode_query h.bk h.k37 h.uk]
+  | cons b r =>
+    simp only [List.isEmpty_cons, Bool.not_false, if_true, splitFirst, beq_self_eq_true, List.append_nil,
+      Option.getD_some]
+    rw [decodeForm_pctEncode_query h.bk h.k37 h.uk, decodeForm_pctEncode_query h.bv h.v37 h.uv]
+
+theorem not_mem_reqParam_38 {kv : Bytes × Bytes} (h : Plain kv) : 38 ∉ reqParam kv := by
+  unfold reqParam
+  intro hm
+  rcases List.mem_append.mp hm with hm | hm
+  · exact not_mem_pctEncode_of_not_mem isDelim_38 h.k38 hm
+  · split at hm
+    · rcases List.mem_cons.mp hm with e | hm
+      · omega
+      · exact not_mem_pctEncode_of_not_mem isDelim_38 h.v38 hm
+    · cases hm
+
+theorem pieces_amp {ps : List Bytes} (hne : ps ≠ []) (h : ∀ p ∈ ps, 38 ∉ p) : pieces 38 (amp ps) = ps := by
+  induction ps with
+  | nil => exact absurd rfl hne
+  | cons p rest ih =>
+    cases rest with
+    | nil => simp [amp, pieces_of_not_mem (h p (by simp))]
+    | cons q rest' =>
+      have : amp (p :: q :: rest') = p ++ 38 :: amp (q :: rest') := by simp [amp]
+      rw [this, pieces_append_sep, pieces_of_not_mem (h p (by simp)),
+        ih (by simp) (fun x hx => h x (List.mem_cons_of_mem _ hx))]
+      rfl
+
+/-- **parse ∘ render = id** on lists of plain parameters. -/
+theorem parseQuery_joinParams {m : Map} (h : ∀ kv ∈ m, Plain kv) :
+    parseQuery (joinParams (m.map reqParam)) = m := by
+  have hne : ∀ p ∈ m.map reqParam, p ≠ [] := by
+    intro p hp
+    obtain ⟨kv, hkv, rfl⟩ := List.mem_map.mp hp
+    intro e; exact (h kv hkv).ne (reqParam_eq_nil.mp e)
+  rw [joinParams_eq_amp hne]
+  cases hm : m with
+  | nil => simp [amp, parseQuery_nil]
+  | cons kv rest =>
+    rw [← hm]
+    unfold parseQuery
+    rw [pieces_amp (by simp [hm])]
+    · rw [List.filter_eq_self.mpr]
+      · rw [List.map_map]
+        have : ∀ kv ∈ m, (parsePair ∘ reqParam) kv = id kv := fun kv hkv => parsePair_reqParam (h kv hkv)
+        rw [List.map_congr_left this, List.map_id]
+      · intro p hp
+        have := hne p hp
+        cases p with
+        | nil => exact absurd rfl this
+        | cons _ _ => rfl
+    · intro p hp
+      obtain ⟨kv, hkv, rfl⟩ := List.mem_map.mp hp
+      exact not_mem_reqParam_38 (h kv hkv)
+
+theorem not_mem_splitFirst_fst (c : Nat) (u : Bytes) : c ∉ (splitFirst c u).1 := by
+  induction u with
+  | nil => simp [splitFirst]
+  | cons b r ih =>
+    by_cases hb : b = c
+    · simp [splitFirst, hb]
+    · have hcb : ¬ c = b := fun e => hb e.symm
+      simp [splitFirst, hb, hcb, ih]
+
+theorem not_mem_pqPath_63 {p : Bytes} (h : 63 ∉ p) : 63 ∉ pqPath p := by
+  unfold pqPath; split
+  · decide
+  · exact h
+
+theorem npq_inj (cfg : Cfg) {path path' : Bytes} {m m' : Map} (hp : 63 ∉ path) (hp' : 63 ∉ path')
+    (hm : ∀ kv ∈ m.filter (notMarketing cfg), Plain kv) (hm' : ∀ kv ∈ m'.filter (notMarketing cfg), Plain kv)
+    (h : npq cfg path m = npq cfg path' m') :
+    path = path' ∧ m.filter (notMarketing cfg) = m'.filter (notMarketing cfg) := by
+  have hs : ∀ (path : Bytes) (m : Map), 63 ∉ path →
+      splitFirst 63 (npq cfg path m) =
+        (path, if !(keptOf cfg m).isEmpty then some (keptOf cfg m) else none) := by
+    intro path m hp
+    unfold npq
+    cases (keptOf cfg m).isEmpty with
+    | true => simp [splitFirst_of_not_mem hp]
+    | false =>
+      simp only [Bool.not_false, if_true]
+      rw [splitFirst_append_of_not_mem 63 _ _ hp]; simp [splitFirst]
+  have h1 := hs path m hp
+  rw [h, hs path' m' hp'] at h1
+  simp only [Prod.mk.injEq] at h1
+  refine ⟨h1.1.symm, ?_⟩
+  have hk : keptOf cfg m = keptOf cfg m' := by
+    have h2 := h1.2
+    cases e1 : (keptOf cfg m).isEmpty <;> cases e2 : (keptOf cfg m').isEmpty <;> simp [e1, e2] at h2
+    · exact h2.symm
+    · rw [List.isEmpty_iff.mp e1, List.isEmpty_iff.mp e2]
+  have := congrArg parseQuery hk
+  unfold keptOf at this
+  rwa [parseQuery_joinParams hm, parseQuery_joinParams hm'] at this
+
 end Rio.Url
